@@ -1495,4 +1495,37 @@ theorem published_solid_rows_2D (p : Par ℝ) (f : Flags) (T0C : ℝ) (prof : Li
   · rw [e]; exact hpost.1
   · rw [e]; exact hpost.2
 
+
+/-! ### 2D: the profile-length hypothesis discharged for the run the driver / `Snowing._run_2D` makes
+(`profile = tempProfile(dt)`, `Nt_exp = ceil(t_tot/dt) + 1`) -/
+
+theorem hlen_run2D (oc : OpCond ℝ) (dt : ℝ) : (profile oc dt).length ≤ nSteps oc.t_tot dt := by
+  rw [Snow.C05.profile_length]
+
+open Snow.S2D in
+/-- **history_aligned for the 2D run itself** (no side hypothesis) -/
+theorem history_aligned_run2D (p : Par ℝ) (f : Flags) (oc : OpCond ℝ) (Frand : ℝ) (cn : Option ℝ) (r : Result ℝ)
+    (h : run p f oc.start (profile oc (dt p)) (nSteps oc.t_tot (dt p)) Frand cn = .ok r) :
+    let prof := profile oc (dt p)
+    let NtExp := nSteps oc.t_tot (dt p)
+    let s := st2D p f oc.start prof NtExp r.iCool
+    let sol := solFin2D (mkCtx p f) NtExp prof r.iCool s
+    r.time.size = r.iSaveEnd + 1 + (sol.rows.size - 1) ∧
+    r.shelf.size = r.time.size ∧ r.temp.size = r.time.size ∧ r.ice.size = r.time.size ∧
+    Aligned2 (shelfK prof) (mkCtx p f).dt (histRows (mkCtx p f) r.iCool s sol).toList
+      (histSteps r.iCool s sol).toList ∧
+    (histSteps r.iCool s sol).toList.Pairwise (· ≤ ·) := by
+  intro prof NtExp s sol
+  obtain ⟨h1, h2, h3, h4, _, _, h7, h8⟩ :=
+    history_aligned_2D p f oc.start prof NtExp (hlen_run2D oc (dt p)) Frand cn r h
+  exact ⟨h1, h2, h3, h4, h7, h8⟩
+
+open Snow.S2D in
+/-- **time axis non-decreasing for the 2D run itself** -/
+theorem time_nondecreasing_run2D (p : Par ℝ) (f : Flags) (hdt : 0 ≤ (mkCtx p f).dt) (oc : OpCond ℝ) (Frand : ℝ)
+    (cn : Option ℝ) (r : Result ℝ)
+    (h : run p f oc.start (profile oc (dt p)) (nSteps oc.t_tot (dt p)) Frand cn = .ok r) :
+    r.time.toList.Pairwise (· ≤ ·) :=
+  time_nondecreasing_2D p f hdt oc.start _ _ (hlen_run2D oc (dt p)) Frand cn r h
+
 end Snow.C13
